@@ -149,6 +149,8 @@ def tally(rep, case, impl_res, ans):
     spec = case['spec']
     rep.count('curated:%s' % (spec.get('spike_clusters') is not None and spec['spike_clusters'] != spec['spike_templates']))
     rep.count('shanks:%s' % (spec.get('channel_shanks') is not None))
+    for name in sorted(spec.get('extra_npy') or {}):
+        rep.count('near_miss_file_in_directory:' + name)
     if 'ok' in ans:
         mm = ans['ok']['merge_map']
         rep.count('multi_template_clusters', sum(1 for v in mm if len(v) >= 2))
